@@ -1738,6 +1738,21 @@ class RenameAxis(Elemwise):
     _keyword_only = ["mapper", "index", "columns", "axis"]
     operation = M.rename_axis
 
+    def _simplify_up(self, parent, dependents):
+        names_columns = self.operand("columns") is not no_default or (
+            self.operand("mapper") is not no_default and self.axis in (1, "columns")
+        )
+        if isinstance(parent, Projection) and parent.ndim == 1 and names_columns:
+            columns = determine_column_projection(self, parent, dependents)
+            if self.frame.ndim == 2 and not isinstance(columns, list):
+                # A column is selected as a Series: the name of the column axis is
+                # gone with the frame, Series.rename_axis does not accept one
+                result = self.frame[columns]
+                if self.operand("index") is not no_default:
+                    result = RenameAxis(result, index=self.operand("index"))
+                return result
+        return super()._simplify_up(parent, dependents)
+
 
 class NotNull(Elemwise):
     _parameters = ["frame"]
